@@ -1584,6 +1584,14 @@ func ruleFindStep(c *Ctx) []Obligation {
 				if phi.Comment == "rangeindex" {
 					idx = true
 				}
+				// … or the steps are cut off the front of the remaining text, which the loop carries
+				if isStringType(phi.Type()) {
+					for _, r := range refsOf(phi) {
+						if call, isC := r.(*ssa.Call); isC && (calleeIs(call, "strings", "Cut") || calleeIs(call, "strings", "Index") || calleeIs(call, "strings", "IndexByte")) && len(call.Call.Args) > 0 && call.Call.Args[0] == ssa.Value(phi) && loopHeaderOf(call.Block()) == b {
+							idx = true
+						}
+					}
+				}
 			}
 		}
 		if !idx {
